@@ -157,6 +157,71 @@ func (m *StreamModel) Ref() StreamRef {
 	return r
 }
 
+// StreamSums is the shadow of an accumulator whose list is too long to keep
+// (streams of 10^4..10^6 values): only the 400-bit running sums, the count
+// and the extremes. The sums of float64 values within 2^-150..2^150 of one
+// another are exact at 400 bits; elsewhere each addition rounds at 2^-400
+// relative. Ref gives the same batch statistics as StreamModel.Ref.
+type StreamSums struct {
+	N       int
+	S, Q, A *big.Float
+	Min     float64
+	Max     float64
+	MaxAbs  float64
+	t, u    *big.Float // temporaries (no allocation per value)
+}
+
+func NewStreamSums() *StreamSums {
+	return &StreamSums{S: sfl(), Q: sfl(), A: sfl(), t: sfl(), u: sfl()}
+}
+
+func (m *StreamSums) Add(x float64) {
+	if m.N == 0 {
+		m.Min, m.Max = x, x
+	} else {
+		m.Min, m.Max = math.Min(m.Min, x), math.Max(m.Max, x)
+	}
+	m.MaxAbs = math.Max(m.MaxAbs, math.Abs(x))
+	m.N++
+	m.t.SetFloat64(x)
+	m.S.Add(m.S, m.t)
+	m.u.Mul(m.t, m.t)
+	m.Q.Add(m.Q, m.u)
+	m.A.Add(m.A, m.t.Abs(m.t))
+}
+
+// Combine makes m contain its own values and those of o; o is not changed.
+func (m *StreamSums) Combine(o *StreamSums) {
+	if o.N == 0 {
+		return
+	}
+	if m.N == 0 {
+		m.Min, m.Max = o.Min, o.Max
+	} else {
+		m.Min, m.Max = math.Min(m.Min, o.Min), math.Max(m.Max, o.Max)
+	}
+	m.MaxAbs = math.Max(m.MaxAbs, o.MaxAbs)
+	m.N += o.N
+	m.S.Add(m.S, o.S)
+	m.Q.Add(m.Q, o.Q)
+	m.A.Add(m.A, o.A)
+}
+
+// Ref gives the batch statistics from the running sums (as StreamModel.Ref).
+func (m *StreamSums) Ref() StreamRef {
+	r := StreamRef{N: m.N, Min: m.Min, Max: m.Max, MaxAbs: m.MaxAbs}
+	r.Total = sfl().Set(m.S)
+	r.SumAbs, _ = m.A.Float64()
+	if r.N == 0 {
+		return r
+	}
+	n := sfi(r.N)
+	r.MSq = sfl().Quo(m.Q, n)
+	r.M2 = sfl().Sub(m.Q, sfl().Quo(sfl().Mul(m.S, m.S), n))
+	finishRef(&r)
+	return r
+}
+
 // StreamBatch is the definitional two-pass computation.
 func StreamBatch(vals []float64) StreamRef {
 	r := StreamRef{N: len(vals), Total: sfl()}
@@ -305,6 +370,19 @@ func StreamSelfTest() error {
 		}
 		if err := StreamRefsAgree(bb, StreamBatch(vals)); err != nil {
 			return fmt.Errorf("self-test trial %d: order dependence: %v", trial, err)
+		}
+		// the list-free shadow, split in two and merged
+		sa, sb := NewStreamSums(), NewStreamSums()
+		for i, v := range vals {
+			if i < n/3 {
+				sa.Add(v)
+			} else {
+				sb.Add(v)
+			}
+		}
+		sa.Combine(sb)
+		if err := StreamRefsAgree(sa.Ref(), bb); err != nil {
+			return fmt.Errorf("self-test trial %d: list-free sums vs two-pass: %v", trial, err)
 		}
 		// exact rationals
 		S, Q := new(big.Rat), new(big.Rat)
